@@ -47,7 +47,7 @@ Proof. vm_compute. split; reflexivity. Qed.
    Divide and Mod start with the zero-divisor guard, Exponent with its three guards *)
 Lemma operator_guards_in_source :
   max_number_exponent_src = max_number_exponent /\ forallb snd operator_guards = true
-  /\ List.length operator_guards = 8%nat.
+  /\ List.length operator_guards = 9%nat.
 Proof. vm_compute. repeat split; reflexivity. Qed.
 
 (* ------------------------------------------------------------------------------------------------ *)
